@@ -158,7 +158,11 @@ func (h *Header) TakeFrom(src []byte) ([]byte, error) {
 		return nil, err
 	}
 
-	wantedSize := int(h.archiveCount * archiveInfoListSize)
+	wantedSize64 := int64(h.archiveCount) * archiveInfoListSize
+	if wantedSize64 > math.MaxInt32 {
+		return nil, errors.New("too many archives")
+	}
+	wantedSize := int(wantedSize64)
 	if len(src) < wantedSize {
 		return nil, &WantLargerBufferError{WantedBufSize: metaSize + wantedSize}
 	}
